@@ -305,7 +305,7 @@
     /// (counter part == old counter) differs from every existing one, and I_writer holds again - for histories of any length.
     /// @props C35
     /// @kind bounded
-    /// @tier thorough
+    /// @tier extended
     /// @timeout 2400
     /// @bounds 1 publisher (disabled, so the enable/announce path is not taken) with an empty writer list; topic of a key-less primitive type
     /// @fn DcpsDomainParticipant::create_data_writer, RtpsStatefulWriter::new, UserDefinedDataWriter::new
@@ -349,7 +349,7 @@
     /// create_data_reader: same contract (reader_counter: u16, participant-wide).
     /// @props C35
     /// @kind bounded
-    /// @tier thorough
+    /// @tier extended
     /// @timeout 2400
     /// @bounds 1 subscriber (disabled) with an empty reader list; topic of a key-less primitive type
     /// @fn DcpsDomainParticipant::create_data_reader, RtpsStatefulReader::new, UserDefinedDataReader::new
@@ -440,7 +440,7 @@
     /// publisher and its writer are still there); through a wrong participant handle it is PreconditionNotMet as well.
     /// @props C36
     /// @kind bounded
-    /// @tier thorough
+    /// @tier extended
     /// @timeout 3000
     /// @bounds 1 publisher, 1 data writer
     /// @fn DcpsDomainParticipant::delete_user_defined_publisher
@@ -469,7 +469,7 @@
     /// exactly that publisher is gone; deleting it again is AlreadyDeleted and the other publisher is untouched.
     /// @props C36
     /// @kind bounded
-    /// @tier thorough
+    /// @tier extended
     /// @timeout 3000
     /// @bounds 2 publishers, no data writer
     /// @fn DcpsDomainParticipant::delete_user_defined_publisher, DomainParticipantEntity::remove_publisher
@@ -513,7 +513,7 @@
     /// check later).
     /// @props C36
     /// @kind bounded
-    /// @tier thorough
+    /// @tier extended
     /// @timeout 3000
     /// @bounds 1 subscriber, 1 data reader
     /// @fn DcpsDomainParticipant::delete_user_defined_subscriber
@@ -542,7 +542,7 @@
     /// change nothing.
     /// @props C36
     /// @kind bounded
-    /// @tier thorough
+    /// @tier extended
     /// @timeout 3000
     /// @bounds 1 topic, 1 publisher, 1 data writer
     /// @fn DcpsDomainParticipant::delete_user_defined_topic
